@@ -108,6 +108,7 @@ func runC10(r *Run) {
 	c.containerLoops()
 	c.keyRoles()
 	c.comparisonKeepsPodData()
+	c10Imports(r)
 }
 
 // ---------------------------------------------------------------------------------------------
